@@ -1,6 +1,7 @@
 """C01 - chunked streaming equals whole-signal computation (structural clauses)."""
 
 import ast
+from fractions import Fraction
 
 from .. import astq, spec
 from .. import sym as S
@@ -33,6 +34,7 @@ def run(ctx):
     ctx.rule(driver)
     ctx.rule(delegation)
     ctx.rule(stft_streaming)
+    ctx.rule(single_chunk_history)
     ctx.rule(si_finalize)
     ctx.rule(carry)
     ctx.rule(shift_register)
@@ -137,6 +139,39 @@ def delegation(ctx, R="R-C01-si-full"):
               "SI compute_full returns %s" % S.show(v)[:160])
 
 
+GRID_L = list(range(1, 13)) + [16, 25]
+GRID_NOTE = "bounded: every frame length L in 1..12, 16, 25, every shift S <= L, every signal length N in 0..3L+2"
+
+
+def _grid(extra=None):
+    dom = {"L": [Fraction(v) for v in GRID_L], "S": [Fraction(v) for v in range(1, 26)], "N": [Fraction(v) for v in range(0, 78)]}
+    dom.update(extra or {})
+    return dom
+
+
+def _grid_ok(env):
+    return env["S"] <= env["L"] and env["N"] <= 3 * env["L"] + 2
+
+
+def _same_grid(ctx, R, f, node, what, got, want, use_grid):
+    """closed-form equality; piecewise forms (the short-signal case split) are compared on the bounded grid"""
+    r = S.compare(sc.simp(sc._len_syms(got)), sc.simp(sc._len_syms(want)), domain={})
+    if r["verdict"] == "equal":
+        ctx.ok(R, f.loc(node), "%s == %s" % (what, S.show(want)[:100]))
+        return
+    dom = {"L": [Fraction(v) for v in GRID_L], "S": [Fraction(v) for v in range(1, 26)], "buf_len": [Fraction(v) for v in range(0, 78)]}
+    for nme in sorted((set(S.symbols(got)) | set(S.symbols(want))) - set(dom)):
+        dom[nme] = [Fraction(v) for v in (0, 1, 2, 5, 11)]
+    r = S.compare_on_grid(got, want, dom, lambda e: e["S"] <= e["L"] and e["buf_len"] <= 3 * e["L"] + 2, limit=4000000)
+    if r["verdict"] == "equal-on-grid":
+        ctx.ok(R, f.loc(node), "%s == %s (%s; %d points)" % (what, S.show(want)[:100], GRID_NOTE.replace("signal length N", "buf_len"), r["points"]))
+    elif r["verdict"] == "differ":
+        ctx.bad(R, f, node, "%s is %s, expected %s; they differ e.g. at %s (%s vs %s)" % (what, S.show(got)[:140], S.show(want)[:140], r["witness"], r["values"][0], r["values"][1]),
+                what, extra={"witness": r["witness"]})
+    else:
+        raise AnalysisError("%s: cannot decide %s: %s" % (R, what, r.get("reason")))
+
+
 def stft_streaming(ctx, R="R-C01-geom-siblings"):
     prog = ctx.prog
     n = 0
@@ -163,22 +198,67 @@ def stft_streaming(ctx, R="R-C01-geom-siblings"):
             nf_want = S.floordiv(S.sub(S.add(buf_len, S.floordiv(sc.Sh, S.lift(2))), S.ZERO if first else pl_spec), sc.Sh)
             tag = "[%s, %s]" % (name, "nothing emitted yet" if first else "after the first frame")
             n += 1
-            sc.same(ctx, R, f, loop, "%s finalize frame count" % tag, nf, nf_want)
+            if first:
+                # nothing emitted yet: the buffer holds the whole signal so far (see the clause on compute_chunk below), and
+                # what finalize owes is what compute_full returns for a signal of buf_len samples - none below L//2 + 1
+                loop_guard = S.subst(ev.guard_of(loop), m) if hasattr(ev, "guard_of") else None
+                ctx.need(loop_guard is not None, R, "path condition of the finalize frame loop not available")
+                total = S.cond(loop_guard, S.emax(S.ZERO, nf), S.ZERO)
+                rows_want = S.cond(S.cmp("<", buf_len, spec.GEOM["empty_below"]), S.ZERO, S.emax(S.ZERO, nf_want))
+                what = "%s frames owed by finalize for a signal of buf_len samples, as compute_full counts them (none when buf_len < L//2 + 1)" % tag
+                r = S.compare(total, rows_want, domain={})
+                if r["verdict"] != "equal":
+                    r = S.compare_on_grid(total, rows_want, _grid({"buf_len": _grid()["N"], "N": [Fraction(0)]}),
+                                          lambda e: e["S"] <= e["L"] and e["buf_len"] <= 3 * e["L"] + 2)
+                if r["verdict"] in ("equal", "equal-on-grid"):
+                    ctx.ok("R-C01-short-signal", f.loc(loop), what + ("" if r["verdict"] == "equal" else " (%s; %d points)" % (GRID_NOTE.replace("N in", "buf_len in"), r["points"])))
+                elif r["verdict"] == "differ":
+                    ctx.bad("R-C01-short-signal", f, loop, "%s is %s, expected %s; they differ e.g. at %s (%s vs %s): streaming emits frames for a signal "
+                            "too short for compute_full to emit any" % (what, S.show(total)[:120], S.show(rows_want)[:100], r["witness"], r["values"][0], r["values"][1]),
+                            what, extra={"witness": r["witness"]})
+                else:
+                    raise AnalysisError("R-C01-short-signal: %s" % r.get("reason"))
+            act = {"buf_len": sc.DOM["N"], "self._hist_len": sc.DOM["N"]}
+            if first:
+                nf_eff = S.cond(S.cmp("<", buf_len, spec.GEOM["empty_below"]), S.ZERO, nf_want)
+            else:
+                nf_eff = nf_want
+                sc.same(ctx, R, f, loop, "%s finalize frame count" % tag, nf, nf_want)
             ctx.need(g["pad"] is not None, R, "np.pad not found in finalize")
             ctx.check(g["pad"]["mode"] == S.lift("symmetric"), R, f, st, "%s finalize pads symmetrically, like compute_full" % tag,
                       "finalize pads with mode %s but compute_full with 'symmetric'" % S.show(g["pad"]["mode"]))
-            sc.same(ctx, R, f, st, "%s finalize left padding" % tag, g["pad"]["left"], pl_eff)
-            pr_want = S.sub(S.sub(S.add(S.mul(S.sub(nf_want, S.ONE), sc.Sh), sc.L), buf_len), pl_eff)
-            sc.same(ctx, R, f, st, "%s finalize right padding" % tag, g["pad"]["right"], pr_want)
+            # the padded array: a tail of the buffer holding at least the buf_len pending samples
+            src = g["pad"]["src"]
+            ok = cc.is_call(src, "getitem") and cc.is_call(src.args[2], "slice") and src.args[2].args[2] == S.NONE and src.args[1].op == "sym"
+            ctx.check(ok, R, f, st, "%s what gets padded is a tail of the sample buffer" % tag, "finalize pads %s" % S.show(src)[:100])
+            if not ok:
+                continue
+            lo_ = src.args[2].args[1]
+            depth = S.neg(lo_) if (lo_.op == "neg" or (S.is_num(lo_) and lo_.value < 0)) else S.sub(sc.L, lo_)
+            for y in S.walk(lo_):
+                # L - (L - y) is y
+                if y.op in ("max", "sym") and S.compare(depth, y, domain={})["verdict"] == "equal":
+                    depth = y
+                    break
+            r_eq = S.compare(depth, buf_len, domain={})["verdict"] == "equal"
+            at_least = r_eq or (depth.op == "max" and any(S.compare(a_, buf_len, domain={})["verdict"] == "equal" for a_ in depth.args))
+            ctx.check(at_least, R, f, st, "%s the padded tail holds at least the buf_len samples still awaiting a frame" % tag,
+                      "finalize pads a tail of %s samples, which need not contain the buf_len pending ones" % S.show(depth)[:60])
+            skipped = S.sub(depth, buf_len)  # retained samples that were framed already: dropped again after padding
+            active = S.cmp(">=", nf_eff, S.ONE)
+
+            def when_active(e):
+                return S.cond(active, e, S.ZERO)
+            dom_a = dict(sc.DOM, **act)
+            _same_grid(ctx, R, f, st, "%s finalize left padding (when a frame is owed)" % tag, when_active(S.subst(g["pad"]["left"], m)), when_active(pl_eff), first)
+            pr_want = S.sub(S.sub(S.add(S.mul(S.sub(nf_eff, S.ONE), sc.Sh), sc.L), buf_len), pl_eff)
+            _same_grid(ctx, R, f, st, "%s finalize right padding (when a frame is owed)" % tag, when_active(g["pad"]["right"]), when_active(pr_want), first)
             k = S.sym(loop.target.id)
             dom = dict(sc.DOM, **{k.args[0]: sc.DOM["N"]})
-            sc.same(ctx, R, f, st, "%s finalize frame k starts at k*S" % tag, g["frame_lo"], S.mul(k, sc.Sh), dom)
+            dom.update(act)
+            sc.same(ctx, R, f, st, "%s finalize frame k starts k*S after the first pending sample's frame (already framed history is skipped)" % tag,
+                    g["frame_lo"], S.add(skipped, S.mul(k, sc.Sh)), dom)
             sc.same(ctx, R, f, st, "%s finalize frame length" % tag, S.sub(g["frame_hi"], g["frame_lo"]), sc.L, dom)
-            # the padded source is the retained remainder self._buf[-buf_len:]
-            src = g["pad"]["src"]
-            ok = cc.is_call(src, "getitem") and cc.is_call(src.args[2], "slice") and S.compare(src.args[2].args[1], S.neg(buf_len), domain={})["verdict"] == "equal" \
-                and src.args[2].args[2] == S.NONE
-            ctx.check(ok, R, f, st, "%s the retained remainder self._buf[-buf_len:] is what gets padded" % tag, "finalize pads %s" % S.show(src)[:100])
     # compute_chunk: first (centered) frame length and its reflected left context
     for style, kaldi in sc.CONFIGS:
         if style != "centered":
@@ -188,7 +268,7 @@ def stft_streaming(ctx, R="R-C01-geom-siblings"):
         f, ev = sc.np_eval(prog, "compute.ShortTimeFourierTransformFrameComputer.compute_chunk", style, kaldi,
                            extra_seed={"self._first_frame": True}, no_inline=("_compute_frame",))
         fl = [n_ for n_ in f.body_nodes() if isinstance(n_, ast.Assign) and astq.is_name(n_.targets[0], "num_frames")]
-        ctx.need(len(fl) == 1, R, "num_frames assignment not found in compute_chunk")
+        ctx.need(len(fl) >= 1, R, "num_frames assignment not found in compute_chunk")
         first_len = ev.eval_at(fl[0], ast.parse("frame_length", mode="eval").body)
         n += 1
         sc.same(ctx, R, f, fl[0], "[%s] first frame needs L - pad_left real samples" % name, first_len, S.sub(sc.L, pl_spec))
@@ -204,6 +284,132 @@ def stft_streaming(ctx, R="R-C01-geom-siblings"):
         sc.same(ctx, R, f, pst, "[%s] reflected left context of the first frame" % name, tup.args[1], pl_spec)
         sc.same(ctx, R, f, pst, "[%s] no right padding while streaming" % name, tup.args[2], S.ZERO)
     ctx.floor(R, n, 8)
+
+
+def _fresh_state(prog):
+    """constant values that finalize() leaves in the instance's scalar attributes (the state every utterance starts from)"""
+    f = prog.func("compute.ShortTimeFourierTransformFrameComputer.finalize")
+    out = {}
+    for n in f.node.body:
+        if isinstance(n, ast.Assign) and len(n.targets) == 1 and astq.is_self_attr(n.targets[0], f.params[0]) and isinstance(n.value, ast.Constant):
+            out["self." + n.targets[0].attr] = n.value.value
+    return out
+
+
+def _tail_depth(ctx, R, prog, f, ev, st):
+    """number of samples in the buffer tail handed to np.pad: buf[-d:] holds d, buf[a:] holds size - a (the buffer is
+    allocated with frame_length samples)"""
+    pads = [c for c in ast.walk(st) if isinstance(c, ast.Call) and prog.qualify(f.module, c.func, f) == "numpy.pad"]
+    if len(pads) != 1:
+        pm = astq.parents(f)
+        pads = [c for c in astq.func_calls(f) if prog.qualify(f.module, c.func, f) == "numpy.pad"]
+    ctx.need(len(pads) == 1, R, "np.pad call not found in finalize")
+    a0 = pads[0].args[0]
+    ctx.need(isinstance(a0, ast.Subscript) and isinstance(a0.slice, ast.Slice) and a0.slice.upper is None and a0.slice.step is None and a0.slice.lower is not None, R,
+             "np.pad is not applied to a tail slice: %s" % astq.text(a0))
+    pst = astq.enclosing_stmt(astq.parents(f), pads[0])
+    low = a0.slice.lower
+    if isinstance(low, ast.UnaryOp) and isinstance(low.op, ast.USub):
+        return sc.canon_len(ev.eval_at(pst, low.operand), [])
+    init = prog.own_method(prog.cls("compute.ShortTimeFourierTransformFrameComputer"), "__init__")
+    alloc = [n for n in init.body_nodes() if isinstance(n, ast.Assign) and astq.is_self_attr(n.targets[0], init.params[0], "_buf")]
+    ctx.need(len(alloc) == 1 and isinstance(alloc[0].value, ast.Call) and alloc[0].value.args and astq.text(alloc[0].value.args[0]) == "self._frame_length", R,
+             "the sample buffer is not allocated with frame_length samples")
+    return S.sub(sc.L, ev.eval_at(pst, low))
+
+
+def single_chunk_history(ctx, R="R-C01-one-chunk-history"):
+    """One particular history - the whole signal in one compute_chunk call, then finalize - summarised in closed form by
+    forward substitution through both methods (the frame loop of compute_chunk is idempotent on the scalars it updates:
+    only its first iteration, the reflected first frame, changes them).  Frame counts must add up to compute_full's, and
+    the tail reflection in finalize must not reach further back than the samples it is applied to."""
+    prog = ctx.prog
+    n_cfg = 0
+    for style, kaldi in sc.CONFIGS:
+        name = sc.cfg_name(style, kaldi)
+        f1 = prog.func("compute.ShortTimeFourierTransformFrameComputer.compute_chunk")
+        seed = {"self._frame_style": style, "self._kaldi_shift": kaldi, "self._first_frame": True, "self._buf_len": 0, "self._started": False}
+        # every other scalar the streaming state consists of starts at the value finalize / __init__ give it
+        seed.update(_fresh_state(prog))
+        ev1 = SymEval(prog, f1, seed=seed, rename=sc.NP_RENAME, inline_self=True, no_inline={"_compute_frame"}, loop_summary=True).run()
+        sig = f1.params[1]
+        ctx.need(len(ev1.returns) == 1, R, "compute_chunk has several returns")
+        sh = sc._alloc_shape(ev1.returns[0][1])
+        ctx.need(sh is not None, R, "compute_chunk does not return a fresh (rows, cols) array")
+        n1 = sc.canon_len(sh[0], [sig])
+        state = {}
+        for attr in ("self._buf_len", "self._first_frame"):
+            v = ev1.env.get(attr)
+            ctx.need(v is not None and not S.has_unknown(v), R, "[%s] %s after compute_chunk has no closed form: %s" % (name, attr, S.show(v)[:80] if v is not None else None))
+            state[attr] = sc.canon_len(v, [sig])
+        extra = {k: sc.canon_len(v, [sig]) for k, v in ev1.env.items() if k.startswith("self._") and k not in state and k not in ("self._buf",)
+                 and not S.has_unknown(v) and k.count(".") == 1}
+        f2 = prog.func("compute.ShortTimeFourierTransformFrameComputer.finalize")
+        seed2 = {"self._frame_style": style, "self._kaldi_shift": kaldi}
+        seed2.update(state)
+        seed2.update({k: v for k, v in extra.items() if k not in ("self._started", "self._chunk_dtype")})
+        ev2 = SymEval(prog, f2, seed=seed2, rename=sc.NP_RENAME, inline_self=True, no_inline={"_compute_frame"}).run()
+        calls = sc._compute_frame_call(f2, ev2)
+        ctx.need(len(calls) == 1, R, "finalize does not call _compute_frame exactly once (in a loop)")
+        pm = astq.parents(f2)
+        loop = [a for a in astq.ancestors(pm, calls[0]) if isinstance(a, ast.For)][0]
+        it = ev2.eval_at(loop, loop.iter)
+        ctx.need(cc.is_call(it, "range") and len(it.args) == 2, R, "finalize frame loop is not range(num_frames)")
+        g2 = ev2.guard_of(loop)
+        n2 = S.cond(g2, S.emax(S.ZERO, it.args[1]), S.ZERO)
+        total = S.add(n1, n2)
+        want = S.cond(S.cmp("<", sc.N, spec.GEOM["empty_below"]), S.ZERO, spec.GEOM["num_frames"])
+        n_cfg += 1
+        r = S.compare(total, want, domain={})
+        if r["verdict"] != "equal":
+            r = S.compare_on_grid(total, want, _grid(), _grid_ok)
+        if r["verdict"] == "equal":
+            ctx.ok(R, f2.loc(loop), "[%s] frames of compute_chunk(x) + finalize() == frames of compute_full(x), identically in N, L, S" % name)
+        elif r["verdict"] == "equal-on-grid":
+            ctx.ok(R, f2.loc(loop), "[%s] frames of compute_chunk(x) + finalize() == frames of compute_full(x) (%s; %d points)" % (name, GRID_NOTE, r["points"]))
+        elif r["verdict"] == "differ":
+            w = r["witness"]
+            try:
+                a = S.evaluate(n1, {k: Fraction(v) for k, v in w.items()})
+            except Exception:
+                a = "?"
+            ctx.bad(R, f2, loop, "[%s] fed a whole signal in one chunk, compute_chunk emits %s and finalize %s frames; compute_full returns %s "
+                    "(e.g. at %s: %s vs %s frames in total)" % (name, S.show(n1)[:90], S.show(it.args[1])[:90], S.show(want)[:80], w, r["values"][0], r["values"][1]),
+                    "streaming and one-shot frame counts agree", extra={"witness": w})
+        else:
+            raise AnalysisError("%s: [%s] frame counts: %s" % (R, name, r.get("reason")))
+        # tail reflection: finalize pads an array of `depth` samples by pad_right on the right; numpy's symmetric padding
+        # equals the reflection of the signal's own tail only while pad_right <= depth
+        st = astq.enclosing_stmt(pm, calls[0])
+        frame = ev2.eval_at(st, calls[0].args[0])
+        g = sc._parse_np_frame(R, frame, "self._buf", "finalize")
+        ctx.need(g["pad"] is not None, R, "np.pad not found in finalize")
+        src = g["pad"]["src"]
+        ctx.need(cc.is_call(src, "getitem") and cc.is_call(src.args[2], "slice") and src.args[2].args[2] == S.NONE, R,
+                 "finalize pads %s, not a tail slice of the buffer" % S.show(src)[:80])
+        depth = _tail_depth(ctx, R, prog, f2, ev2, st)
+        active = S.eand(g2, S.cmp(">=", it.args[1], S.ONE))
+        # (when the padded array is the whole signal - nothing emitted yet - both paths fold the same array the same way)
+        over = S.cond(S.eand(active, S.cmp(">", g["pad"]["right"], depth), S.cmp("!=", depth, sc.N)), S.ONE, S.ZERO)
+        RR = "R-C01-reflection-depth"
+        r = S.compare_on_grid(over, S.ZERO, _grid(), _grid_ok)
+        if r["verdict"] == "equal-on-grid":
+            ctx.ok(RR, f2.loc(st), "[%s] finalize never reflects further back than the %s samples it pads (%s; %d points)"
+                   % (name, S.show(depth)[:40], GRID_NOTE, r["points"]))
+        elif r["verdict"] == "differ":
+            w = r["witness"]
+            envw = {k: Fraction(v) for k, v in w.items()}
+            try:
+                pr, dp = S.evaluate(g["pad"]["right"], envw), S.evaluate(depth, envw)
+            except Exception:
+                pr = dp = "?"
+            ctx.bad(RR, f2, st, "[%s] at %s finalize reflects %s samples beyond the end of an array of only %s retained samples: numpy's symmetric "
+                    "padding then folds back and forth inside the short remainder, whereas compute_full reflects the signal itself, so the last "
+                    "frame(s) differ between streaming and one-shot computation" % (name, w, pr, dp), "tail reflection within the retained samples",
+                    extra={"witness": w})
+        else:
+            raise AnalysisError("%s: [%s] %s" % (RR, name, r.get("reason")))
+    ctx.floor(R, n_cfg, 4)
 
 
 def si_finalize(ctx, R="R-C01-si-finalize"):
